@@ -264,7 +264,16 @@ def run(ctx):
     rep = report.Report('C03', 'model_checking')
     bound = 1 if ctx.quick else 2
     params = param_list(ctx)
+    if not ctx.quick:
+        params = [dict(q, _free_switch=True) for q in params if not q['variant'].startswith('backlog')] + \
+                 [q for q in params if q['variant'].startswith('backlog')]
     st, viols, samples, gate = core.run_search(Delivery, params, bound, ctx.workers, ctx.seed)
+    if ctx.quick:
+        # one level deeper on the scenarios where the transport switches
+        deep = [q for q in params if q['variant'] in ('upgrade_ok', 'upgrade_no_pending_poll') and q['k'] == 2]
+        st2, viols2, _, _ = core.run_search(Delivery, deep, 2, ctx.workers, ctx.seed)
+        st.merge(st2)
+        viols += viols2
     for v in viols:
         rep.add(report.Violation(
             dict({'impl': v['params']['impl'], 'kind': v['kind']}, **v['sig']),
